@@ -14,6 +14,12 @@ type nat =
 | O
 | S of nat
 
+(** val option_map : ('a1 -> 'a2) -> 'a1 option -> 'a2 option **)
+
+let option_map f = function
+| Some a -> Some (f a)
+| None -> None
+
 (** val length : 'a1 list -> nat **)
 
 let rec length = function
@@ -33,6 +39,15 @@ let rec add n0 m =
   match n0 with
   | O -> m
   | S p -> S (add p m)
+
+(** val sub : nat -> nat -> nat **)
+
+let rec sub n0 m =
+  match n0 with
+  | O -> n0
+  | S k -> (match m with
+            | O -> n0
+            | S l -> sub k l)
 
 type positive =
 | XI of positive
@@ -55,6 +70,13 @@ let eqb b1 b2 =
 
 module Nat =
  struct
+  (** val add : nat -> nat -> nat **)
+
+  let rec add n0 m =
+    match n0 with
+    | O -> m
+    | S p -> S (add p m)
+
   (** val eqb : nat -> nat -> bool **)
 
   let rec eqb n0 m =
@@ -93,6 +115,17 @@ let tl = function
 | [] -> []
 | _ :: m -> m
 
+(** val nth : nat -> 'a1 list -> 'a1 -> 'a1 **)
+
+let rec nth n0 l default =
+  match n0 with
+  | O -> (match l with
+          | [] -> default
+          | x :: _ -> x)
+  | S m -> (match l with
+            | [] -> default
+            | _ :: t -> nth m t default)
+
 (** val map : ('a1 -> 'a2) -> 'a1 list -> 'a2 list **)
 
 let rec map f = function
@@ -123,11 +156,152 @@ let rec forallb f = function
 | [] -> true
 | a :: l0 -> (&&) (f a) (forallb f l0)
 
+(** val filter : ('a1 -> bool) -> 'a1 list -> 'a1 list **)
+
+let rec filter f = function
+| [] -> []
+| x :: l0 -> if f x then x :: (filter f l0) else filter f l0
+
+(** val combine : 'a1 list -> 'a2 list -> ('a1 * 'a2) list **)
+
+let rec combine l l' =
+  match l with
+  | [] -> []
+  | x :: tl0 ->
+    (match l' with
+     | [] -> []
+     | y :: tl' -> (x, y) :: (combine tl0 tl'))
+
+(** val seq : nat -> nat -> nat list **)
+
+let rec seq start = function
+| O -> []
+| S len0 -> start :: (seq (S start) len0)
+
 (** val ex_keep :
     (((((nat * n) * z) * z list) * z option) * positive) * bool **)
 
 let ex_keep =
   ((((((O, N0), Z0), []), None), XH), true)
+
+(** val index_of : nat -> nat list -> nat option **)
+
+let rec index_of d = function
+| [] -> None
+| x :: r ->
+  if Nat.eqb x d then Some O else option_map (fun x0 -> S x0) (index_of d r)
+
+(** val memb : nat -> nat list -> bool **)
+
+let rec memb x = function
+| [] -> false
+| y :: r -> (||) (Nat.eqb y x) (memb x r)
+
+(** val nodupb : nat list -> bool **)
+
+let rec nodupb = function
+| [] -> true
+| x :: r -> (&&) (negb (memb x r)) (nodupb r)
+
+(** val inorder_prefix : nat -> nat -> nat list -> nat **)
+
+let rec inorder_prefix ndecl d = function
+| [] -> O
+| x :: r ->
+  if (&&) (Nat.eqb x d) (Nat.ltb d ndecl)
+  then S (inorder_prefix ndecl (S d) r)
+  else O
+
+(** val insert : nat -> nat list -> nat list **)
+
+let rec insert x l = match l with
+| [] -> x :: []
+| y :: r -> if Nat.leb x y then x :: l else y :: (insert x r)
+
+(** val isort : nat list -> nat list **)
+
+let rec isort = function
+| [] -> []
+| x :: r -> insert x (isort r)
+
+(** val before_first : nat -> nat list -> nat list **)
+
+let rec before_first first = function
+| [] -> []
+| x :: r -> if Nat.eqb x first then [] else x :: (before_first first r)
+
+type cmres =
+| CMErr
+| CMGap
+| CMOk of nat list * nat list
+
+(** val ooo_scan :
+    nat -> nat list -> nat -> nat -> bool -> nat list option **)
+
+let rec ooo_scan npos names fuel d missing =
+  match fuel with
+  | O -> Some []
+  | S f ->
+    (match index_of d names with
+     | Some i ->
+       if missing
+       then None
+       else option_map (fun x -> (add npos i) :: x)
+              (ooo_scan npos names f (S d) false)
+     | None -> ooo_scan npos names f (S d) true)
+
+(** val ccmap :
+    bool -> bool -> nat -> nat -> nat list -> (nat -> bool) -> cmres **)
+
+let ccmap cc_sort cc_keep npos ndecl names simple =
+  if Nat.ltb ndecl npos
+  then CMErr
+  else if (||) (existsb (fun x -> Nat.ltb x npos) names) (negb (nodupb names))
+       then CMErr
+       else if existsb (fun x -> Nat.leb ndecl x) names
+            then CMErr
+            else let pre = inorder_prefix ndecl npos names in
+                 let k = add npos pre in
+                 if Nat.leb (length names) pre
+                 then CMOk ([], (seq O k))
+                 else (match ooo_scan npos names (sub ndecl k) k false with
+                       | Some oo ->
+                         let args = app (seq O k) oo in
+                         let temps0 = filter (fun p -> negb (simple p)) oo in
+                         (match temps0 with
+                          | [] -> CMOk ([], args)
+                          | first :: _ ->
+                            let before = before_first first args in
+                            let new_temps =
+                              filter (fun p -> negb (simple p)) before
+                            in
+                            let args' =
+                              match new_temps with
+                              | [] -> args
+                              | _ :: _ -> if cc_keep then args else before
+                            in
+                            CMOk
+                            ((app new_temps
+                               (if cc_sort then isort temps0 else temps0)),
+                            args'))
+                       | None -> CMGap)
+
+(** val slot_pos : nat -> nat list -> nat -> nat option **)
+
+let slot_pos npos names d =
+  if Nat.ltb d npos
+  then Some d
+  else option_map (Nat.add npos) (index_of d names)
+
+(** val ref_slots : nat -> nat list -> nat -> nat -> nat list **)
+
+let rec ref_slots npos names fuel d =
+  match fuel with
+  | O -> []
+  | S f ->
+    (match slot_pos npos names d with
+     | Some p -> p :: (ref_slots npos names f (S d))
+     | None -> [])
 
 type op =
 | OLog of nat
@@ -171,6 +345,7 @@ type expr =
 | ECmp of expr * op list * expr list
 | EMCall of nat * op * expr * expr list
 | EMinMax of op * expr list
+| ECCall of op * nat * nat * expr * nat * nat list * expr list
 
 type starget =
 | TName of nat
@@ -352,7 +527,17 @@ let rec eval s vars m e =
       | v0 :: vs ->
         let (w, ev) = scan v0 vs in
         tobool { rv = w; rk = None; rev = (app (flat_ev rs) ev); rlf =
-          (flat_lf rs) }))
+          (flat_lf rs) })
+   | ECCall (o, _, ndecl, recv, npos, names, es) ->
+     let rr = eval s vars MVal recv in
+     let rs = evals0 es in
+     let (v, ev) =
+       s.opsem o
+         (rr.rv :: (map (fun p -> nth p (map (fun r -> r.rv) rs) VNone)
+                     (ref_slots npos names ndecl O)))
+     in
+     tobool { rv = v; rk = None; rev = (app rr.rev (app (flat_ev rs) ev));
+       rlf = (app rr.rlf (flat_lf rs)) })
 
 (** val evals : sem -> (nat -> val0) -> expr list -> res list **)
 
@@ -554,7 +739,8 @@ let rec run s c st m =
         | _ -> run s c' st m))
 
 type flags = { fx_minmax : bool; fx_mcall : bool; fx_inplace : bool;
-               fx_cascade : bool }
+               fx_cascade : bool; fx_ccsimple : bool; fx_cckeep : bool;
+               fx_ccrecv : bool; cc_sorted : bool }
 
 type ctx =
 | CVal
@@ -707,6 +893,103 @@ let finish_bool c code t n0 =
     let (tail, n2) = thread_tail MBool res0 andl orl endl (OTemp t) n0 in
     (((app code tail), (OTemp res0)), n2)
   | _ -> ((code, (OTemp t)), n0)
+
+(** val bsimple : expr -> bool **)
+
+let rec bsimple = function
+| EName _ -> true
+| ENone -> true
+| EOp (o0, es) ->
+  (match o0 with
+   | OSeq _ -> true
+   | OGetAttr _ ->
+     (match es with
+      | [] -> false
+      | o :: l -> (match l with
+                   | [] -> bsimple o
+                   | _ :: _ -> false))
+   | _ -> false)
+| EAnd (_, _) -> true
+| EOr (_, _) -> true
+| ECond (_, _, _) -> true
+| _ -> false
+
+(** val tsimple : expr -> bool **)
+
+let tsimple = function
+| EName _ -> true
+| ENone -> true
+| _ -> false
+
+(** val csimple : flags -> expr -> bool **)
+
+let csimple f e =
+  if f.fx_ccsimple then tsimple e else bsimple e
+
+(** val gen_sel :
+    (nat -> gres) list -> nat list -> nat -> (instr list * operand list) * nat **)
+
+let rec gen_sel gfs ps n0 =
+  match ps with
+  | [] -> (([], []), n0)
+  | p :: r ->
+    let (p0, n1) = nth p gfs (fun n1 -> (([], ONoneC), n1)) n0 in
+    let (c1, r1) = p0 in
+    let (p1, n2) = gen_sel gfs r n1 in
+    let (c2, rs) = p1 in (((app c1 c2), (r1 :: rs)), n2)
+
+(** val lookup : nat -> (nat * operand) list -> operand **)
+
+let rec lookup p = function
+| [] -> ONoneC
+| p0 :: r -> let (q, o) = p0 in if Nat.eqb q p then o else lookup p r
+
+(** val ccall_code :
+    flags -> ctx -> op -> nat -> nat -> (nat -> gres) -> nat -> nat list ->
+    (nat -> bool) -> (nat -> gres) list -> nat -> gres **)
+
+let ccall_code f c o nreq ndecl grecv npos names simple gfs n0 =
+  match ccmap f.cc_sorted f.fx_cckeep npos ndecl names simple with
+  | CMOk (temps0, args) ->
+    if Nat.ltb (length args) nreq
+    then finish c (([], ONoneC), n0)
+    else let inplace = filter (fun p -> negb (memb p temps0)) args in
+         if f.fx_ccrecv
+         then let (p, n1) = grecv n0 in
+              let (c0, r0) = p in
+              let (p0, n2) = gen_sel gfs temps0 n1 in
+              let (c1, trs) = p0 in
+              let (p1, n3) = gen_sel gfs inplace n2 in
+              let (c2, irs) = p1 in
+              let env = combine (app temps0 inplace) (app trs irs) in
+              finish c
+                (((app c0
+                    (app c1
+                      (app c2 ((IOp (n3, o,
+                        (r0 :: (map (fun p2 -> lookup p2 env) args)))) :: [])))),
+                (OTemp n3)), (S n3))
+         else let (p, n1) = gen_sel gfs temps0 n0 in
+              let (c1, trs) = p in
+              let (p0, n2) = grecv n1 in
+              let (c0, r0) = p0 in
+              let (p1, n3) = gen_sel gfs inplace n2 in
+              let (c2, irs) = p1 in
+              let env = combine (app temps0 inplace) (app trs irs) in
+              finish c
+                (((app c1
+                    (app c0
+                      (app c2 ((IOp (n3, o,
+                        (r0 :: (map (fun p2 -> lookup p2 env) args)))) :: [])))),
+                (OTemp n3)), (S n3))
+  | _ -> finish c (([], ONoneC), n0)
+
+(** val ccall_rejected :
+    flags -> nat -> nat -> nat -> nat list -> (nat -> bool) -> bool **)
+
+let ccall_rejected f nreq ndecl npos names simple =
+  match ccmap f.cc_sorted f.fx_cckeep npos ndecl names simple with
+  | CMOk (_, args) -> Nat.ltb (length args) nreq
+  | _ -> true
 
 (** val gen : flags -> ctx -> expr -> nat -> gres **)
 
@@ -897,7 +1180,16 @@ let rec gen f c e n0 =
              let (c0, r0) = p0 in
              let (cs, n3) = scan n0 tb rs n2 in
              finish c (((app cr (app c0 (app ((IMove (n0, r0)) :: []) cs))),
-               (OTemp n0)), n3)))
+               (OTemp n0)), n3))
+   | ECCall (o, nreq, ndecl, recv, npos, names, es) ->
+     let gfs =
+       let rec go = function
+       | [] -> []
+       | x :: xs -> (gen f CVal x) :: (go xs)
+       in go es
+     in
+     ccall_code f c o nreq ndecl (gen f CVal recv) npos names (fun p ->
+       csimple f (nth p es ENone)) gfs n0)
 
 (** val gens :
     flags -> expr list -> nat -> (instr list * operand list) * nat **)
@@ -1223,6 +1515,31 @@ let gen_stmt f s n0 =
     let (p, n1) = gens f es n0 in
     let (code, rs) = p in ((app code ((IOp (n1, o, rs)) :: [])), (S n1))
 
+(** val rejected : flags -> expr -> bool **)
+
+let rec rejected f e =
+  let any =
+    let rec any = function
+    | [] -> false
+    | x :: xs -> (||) (rejected f x) (any xs)
+    in any
+  in
+  (match e with
+   | EOp (_, es) -> any es
+   | ENot a -> rejected f a
+   | EAnd (a, b) -> (||) (rejected f a) (rejected f b)
+   | EOr (a, b) -> (||) (rejected f a) (rejected f b)
+   | ECond (c, a, b) ->
+     (||) ((||) (rejected f c) (rejected f a)) (rejected f b)
+   | ECmp (a, _, rest) -> (||) (rejected f a) (any rest)
+   | EMCall (_, _, obj, args) -> (||) (rejected f obj) (any args)
+   | EMinMax (_, args) -> any args
+   | ECCall (_, nreq, ndecl, recv, npos, names, es) ->
+     (||) ((||) (rejected f recv) (any es))
+       (ccall_rejected f nreq ndecl npos names (fun p ->
+         csimple f (nth p es ENone)))
+   | _ -> false)
+
 (** val vtruth : val0 -> bool **)
 
 let rec vtruth = function
@@ -1350,7 +1667,32 @@ let run_stmt f s =
 let ref_run s =
   ref_stmt std_sem init_vars s
 
+(** val mk_flags8 :
+    bool -> bool -> bool -> bool -> bool -> bool -> bool -> bool -> flags **)
+
+let mk_flags8 a b c d e f g h =
+  { fx_minmax = a; fx_mcall = b; fx_inplace = c; fx_cascade = d;
+    fx_ccsimple = e; fx_cckeep = f; fx_ccrecv = g; cc_sorted = h }
+
 (** val mk_flags : bool -> bool -> bool -> bool -> flags **)
 
 let mk_flags a b c d =
-  { fx_minmax = a; fx_mcall = b; fx_inplace = c; fx_cascade = d }
+  mk_flags8 a b c d true true true true
+
+(** val starget_rejected : flags -> starget -> bool **)
+
+let starget_rejected f = function
+| TName _ -> false
+| TStore (_, es) -> existsb (rejected f) es
+
+(** val stmt_rejected : flags -> stmt -> bool **)
+
+let stmt_rejected f = function
+| SAssign (ts, rhs) ->
+  (||) (rejected f rhs)
+    (existsb (fun t ->
+      match t with
+      | TS t1 -> starget_rejected f t1
+      | TTup l -> existsb (starget_rejected f) l) ts)
+| SAug (lhs, _, rhs) -> (||) (rejected f lhs) (rejected f rhs)
+| SDel (_, es) -> existsb (rejected f) es
